@@ -371,12 +371,12 @@ static void run_c06p(void)
             for (nblk = 0; nblk <= 25; ++nblk) for (dir = 0; dir < (c == CK_MANTIS ? 1 : 2); ++dir) for (fam = 0; fam < 2; ++fam) {
                 /* sizes: whole blocks, plus invalid sizes nblk*bs+1 and nblk*bs-1 */
                 int variant;
-                for (variant = 0; variant < 3; ++variant) {
+                for (variant = 0; variant < 4; ++variant) {   /* variant 3: whole blocks, output buffer == input buffer (round 16) */
                     long nbytes = (long)nblk * bs + (variant == 1 ? 1 : (variant == 2 ? -1 : 0));
                     if (nbytes < 0) continue;
                     arena_reset();
                     ++g_cnt.evaluations;
-                    snprintf(cd, sizeof(cd), "c06p %d %d %d %ld %d %d", c, ki, nblk, nbytes, dir, fam);
+                    snprintf(cd, sizeof(cd), "c06p %d %d %d %ld %d %d%s", c, ki, nblk, nbytes, dir, fam, variant == 3 ? " in-place" : "");
                     fill_data(in_, (size_t)nbytes + 16, fam, bs);
                     fill_tweaks(tw_, nblk + 1, fam + nblk, 555 + (uint32_t)fam);
                     for (b = 0; b < nbe; ++b) {
@@ -384,7 +384,8 @@ static void run_c06p(void)
                         if (!par_init((Cipher)c, b, &o[b])) engine_error("init failed");
                         rk[b] = par_set_key((Cipher)c, &o[b], KEYS[kc[ki].ki], (unsigned)kc[ki].klen, (unsigned)kc[ki].rounds, kc[ki].mode ? MANTIS_DECRYPT : MANTIS_ENCRYPT);
                         memset(out_[b], 0xEE, (size_t)nbytes + 16);
-                        r[b] = par_crypt((Cipher)c, &o[b], out_[b], in_, tw_, (size_t)nbytes, dir);
+                        if (variant == 3) memcpy(out_[b], in_, (size_t)nbytes);
+                        r[b] = par_crypt((Cipher)c, &o[b], out_[b], variant == 3 ? out_[b] : in_, tw_, (size_t)nbytes, dir);
                     }
                     distinct_add_u64(fnv1a(out_[0], (size_t)nbytes, fnv1a(cd, strlen(cd), 5)));
                     for (b = 1; b < nbe; ++b) {
